@@ -7,6 +7,7 @@ from ..flow import AbsInt
 from ..rules import decide_states, fmt_trace, relevant_guards, module_state_rule, loop_headers_rule
 
 ID = "C12"
+ANCHORS = 'tools.fimo._fast_hits,tools.fimo.fimo,tools.fimo._all_pwm_to_mapping'.split(",")
 MIN_INSTANCES = 12
 EXPLANATION = (
     "R-WIN: in fimo._fast_hits the window loop is analysed in the linear-constraint domain: (coverage) the last valid start "
